@@ -386,6 +386,144 @@ func rulesC03(c *Ctx) {
 		}
 		c.Pin("SSE 202 sites", m, 1)
 	})
+
+	c.Rule("R-C03-7", "the messages of one JSON-RPC batch reach the reader in wire order: decoded by appending in slice order, queued as the tail msgs[1:], consumed from the head, published to the session channel in slice order", func() {
+		isSlice := func(f *Func, e ast.Expr) bool {
+			_, ok := f.TypeOf(e).Underlying().(*types.Slice)
+			return ok
+		}
+		// readBatch
+		rb := c.Fn(pM, "", "readBatch")
+		msgsRes := rb.NamedResult(0)
+		c.Need(msgsRes != nil, "readBatch: named result msgs")
+		n := 0
+		for _, w := range rb.writesToVar(rb.Body, msgsRes, true) {
+			n++
+			ok := false
+			if as, isAs := w.(*ast.AssignStmt); isAs && len(as.Rhs) == 1 {
+				if ce, isC := ast.Unparen(as.Rhs[0]).(*ast.CallExpr); isC && rb.BuiltinName(ce) == "append" && len(ce.Args) == 2 && !ce.Ellipsis.IsValid() && rb.ObjOf(ce.Args[0]) == msgsRes {
+					if rs, isR := rb.Enclosing(w, func(n ast.Node) bool { _, ok := n.(*ast.RangeStmt); return ok }).(*ast.RangeStmt); isR && isSlice(rb, rs.X) {
+						ok = true
+					}
+				}
+			}
+			c.Check(ok, "readBatch:append-in-order#"+itoa(n), rb, w, "decoded messages are appended at the tail while ranging over the raw array (a slice: index order)")
+		}
+		c.Pin("readBatch appends", n, 1)
+		// ioConn.Read
+		rd := c.Fn(pM, "ioConn", "Read")
+		rg := rd.Graph()
+		queue := c.Field(pM, "ioConn", "queue")
+		batchVar := rd.VarFromCall(rb.Obj, 0)
+		c.Need(batchVar != nil, "ioConn.Read: the slice returned by readBatch")
+		isSrc := func(e ast.Expr) bool { return rd.IsField(e, queue) || rd.ObjOf(e) == batchVar }
+		headOf := func(e ast.Expr) bool {
+			m, k, ok := indexOf(e)
+			if !ok || !isSrc(m) {
+				return false
+			}
+			z, isZ := rd.ConstInt(k)
+			return isZ && z == 0
+		}
+		nq := 0
+		var qWrites []Write
+		for _, w := range Writes(rd.Body, true) {
+			if rd.IsField(w.LHS, queue) {
+				qWrites = append(qWrites, w)
+			}
+		}
+		for _, w := range qWrites {
+			nq++
+			ok := false
+			if w.RHS != nil {
+				if sl, isSl := ast.Unparen(w.RHS).(*ast.SliceExpr); isSl && isSrc(sl.X) && sl.High == nil && sl.Max == nil && sl.Low != nil {
+					z, isZ := rd.ConstInt(sl.Low)
+					ok = isZ && z == 1
+				}
+			}
+			c.Check(ok, "ioConn.Read:queue-keeps-tail#"+itoa(nq), rd, w.Stmt, "the queue is only ever set to X[1:] of itself or of the freshly decoded batch (the head is what this Read returns)")
+		}
+		c.Pin("ioConn.queue writes", nq, 2)
+		nr := 0
+		for _, r := range rd.Returns() {
+			if len(r.Results) != 2 || isNilIdent(r.Results[0]) {
+				continue
+			}
+			nr++
+			e := r.Results[0]
+			ok := headOf(e)
+			if !ok {
+				// a local bound to X[0] on the way to this return
+				if o := rd.ObjOf(e); o != nil {
+					ws := rd.writesToVar(rd.Body, o, false)
+					if len(ws) == 1 {
+						if as, isAs := ws[0].(*ast.AssignStmt); isAs && len(as.Rhs) == 1 && headOf(as.Rhs[0]) && rg.Dominates(rg.VertexOf(ws[0]), rg.VertexOf(r)) {
+							// and the queue was not advanced before the head was taken
+							ok = true
+							for _, qw := range qWrites {
+								qv := rg.VertexOf(qw.Stmt)
+								if qv != rg.VertexOf(ws[0]) && rg.ReachableFrom(qv)[rg.VertexOf(ws[0])] {
+									ok = false
+								}
+							}
+						}
+					}
+				}
+			}
+			c.Check(ok, "ioConn.Read:returns-head#"+itoa(nr), rd, r, "a message handed to the reader is element 0 of the queue or of the decoded batch")
+		}
+		c.Pin("ioConn.Read message returns", nr, 2)
+		// the queue is drained before new input is read
+		inF := c.Field(pM, "ioConn", "incoming")
+		okDrain := false
+		for _, cv := range rg.condVertices() {
+			x, y, op, isCmp := binaryCmp(rg.Node(cv - 1).(ast.Expr))
+			if !isCmp || (op != token.GTR && op != token.NEQ) {
+				continue
+			}
+			// len(queue), or a local whose only definition is len(queue)
+			if o := rd.ObjOf(x); o != nil {
+				if ws := rd.writesToVar(rd.Body, o, false); len(ws) == 1 {
+					if as, isAs := ws[0].(*ast.AssignStmt); isAs && len(as.Rhs) == 1 {
+						x = as.Rhs[0]
+					}
+				}
+			}
+			lc, isCall := ast.Unparen(x).(*ast.CallExpr)
+			z, isZ := rd.ConstInt(y)
+			if !isCall || rd.BuiltinName(lc) != "len" || !rd.IsField(lc.Args[0], queue) || !isZ || z != 0 {
+				continue
+			}
+			okDrain = true
+			inspectNoLit(rd.Body, func(n ast.Node) {
+				if u, isU := n.(*ast.UnaryExpr); isU && u.Op == token.ARROW && rd.IsField(u.X, inF) {
+					if !rg.Dominates(cv-1, rg.VertexOf(u)) {
+						okDrain = false
+					}
+				}
+			})
+		}
+		c.Check(okDrain, "ioConn.Read:queue-before-input", rd, nil, "the receive from the input channel is dominated by the len(queue) > 0 test: the rest of a batch is handed out before anything newer")
+		// servePOST publishes in slice order
+		sp := c.Fn(pM, "streamableServerConn", "servePOST")
+		inS := c.Field(pM, "streamableServerConn", "incoming")
+		bodyMsgs := sp.VarFromCall(rb.Obj, 0)
+		c.Need(bodyMsgs != nil, "servePOST: the slice returned by readBatch")
+		ns := 0
+		for _, snd := range sendsOn(sp, inS) {
+			ns++
+			rs, _ := sp.Enclosing(snd, func(n ast.Node) bool { _, ok := n.(*ast.RangeStmt); return ok }).(*ast.RangeStmt)
+			ok := rs != nil && sp.ObjOf(rs.X) == bodyMsgs && isSlice(sp, rs.X) && rs.Value != nil && sp.ObjOf(snd.Value) == sp.ObjOf(rs.Value)
+			// the slice is not reordered between decoding and publishing
+			for _, w := range sp.writesToVar(sp.Body, bodyMsgs, true) {
+				if as, isAs := w.(*ast.AssignStmt); !isAs || as.Tok != token.DEFINE {
+					ok = false
+				}
+			}
+			c.Check(ok, "servePOST:publish-in-order#"+itoa(ns), sp, snd, "each message of the body is sent to the session channel while ranging over the decoded slice itself")
+		}
+		c.Pin("servePOST sends on incoming", ns, 2)
+	})
 }
 
 func deepC03(c *Ctx) {
